@@ -393,6 +393,96 @@ def gen_extreme(rng, n):
             pa, pb = rng.choice([(p, p), (p, max(ndigits(B, y[0]), 1)), (max(ndigits(B, x[0]), 1), p), (p, rng.choice(EXT))])
             yield Case("f." + op, [fenc(B, x[0], x[1], pa, m), fenc(B, y[0], y[1], pb, m)])
 
+def _repr_div_qr(B, a, D, p):
+    """the (|q|, |r|) that Context::repr_div (float/src/div.rs) hands to Round::round_ratio for significands a / D at precision p
+    (None: the division is exact)"""
+    sa, sd = abs(a), abs(D)
+    q, r = divmod(sa, sd)
+    if r == 0:
+        return None
+    dd = ndigits(B, sd)
+    if q == 0:
+        q, r = divmod(r * B ** (dd + p - ndigits(B, r)), sd)
+    else:
+        nd = ndigits(B, q) + dd
+        if nd < dd + p:
+            sh = dd + p - nd
+            q0, r = divmod(r * B ** sh, sd)
+            q = q * B ** sh + q0
+    return (q, r) if r else None
+
+def gen_div_halftest(rng, n):
+    """round 6 (seed C03-7): the half test of Round::round_ratio compares 2*|rem| with |den| on the FULL numbers.  Input class
+    from that comparison and the word layout of its operands: divisor significand of bit length w*k + {1,2,3} (top word 1,
+    2..3, 4..7), w*k (full top word) and w*k - 1 for w in {64, 32}, k in 1..3 - so that remainders >= den/2 exist that occupy
+    FEWER words than the divisor - with the remainder that reaches round_ratio placed at den/2 (+-1), at the largest / half of
+    the largest value with one word fewer than the divisor, at den - 1 and at random in [den/2, den).  Half of the cases
+    construct the dividend q*den + rem directly (q of exactly p digits: repr_div's first div_rem is final, Context::div, any
+    p >= 1); the other half sample dividends that FIT the precision (p >= digits(divisor), i.e. >= 20 decimal digits / 65 bits)
+    until repr_div's scaled remainder falls in that class (FBig `/` in all forms, Context::div, inv).  Mostly HalfEven /
+    HalfAway (the modes that run the half test), directed modes as control."""
+    for _ in range(n):
+        B = rng.choice(BASES); m = rng.choice("EHEHEHEHZAUD")
+        w = rng.choice([64, 64, 64, 32]); k = rng.choice([1, 1, 1, 2, 2, 3])
+        bl = w * k + rng.choice([1, 1, 1, 1, 2, 3, 0, -1])
+        pat = rng.choice(["lo", "lo", "rnd", "rnd", "hi", "sparse"])
+        if pat == "lo":
+            D = (1 << (bl - 1)) + rng.randrange(1, 1 << 16)
+        elif pat == "hi":
+            D = (1 << bl) - rng.randrange(1, 1 << 16)
+        elif pat == "sparse":
+            D = (1 << (bl - 1)) | (1 << rng.randrange(0, bl - 1)) | 1
+        else:
+            D = rng.randrange(1 << (bl - 1), 1 << bl)
+        while D % B == 0:
+            D += 1
+        dd = ndigits(B, D)
+        Wb = 1 << (w * k)            # values below it have fewer words than a divisor of more than w*k bits
+        half = (D + 1) // 2
+        sa, sb = rng.choice([1, -1]), rng.choice([1, -1])
+        ea = rng.choice([0, 1, -2, 11]); eb = rng.choice([0, -1, 3, -17])
+        if rng.random() < 0.5:
+            p = rng.choice([1, 2, 3, 5, 8, 24, rng.randrange(1, 40)])
+            q = rand_sig(rng, B, p)
+            cands = [half, D // 2, half + 1, D // 2 - 1, D - 1, Wb - 1, Wb // 2, Wb // 2 + 1, rng.randrange(D // 2, D)]
+            if half < min(D, Wb):
+                cands += [rng.randrange(half, min(D, Wb))] * 4
+            r = rng.choice([c for c in cands if 0 < c < D])
+            a = q * D + r
+            if a % B == 0:
+                a += 1 if r + 1 < D else -1
+            yield Case("c.div", [fenc(B, sa * a, ea, 0, m), fenc(B, sb * D, eb, 0, m), dec(p)])
+            continue
+        p = max(dd, rng.choice(PRECS + [dd, dd, dd + 1, dd + 5]))
+        inv = rng.random() < 0.1
+        a = 1
+        for t in range(60):
+            if inv:
+                # inv: the divisor is the only free operand
+                D = D + 2 if t else D
+                while D % B == 0:
+                    D += 1
+                if ndigits(B, D) > p:
+                    break
+                half = (D + 1) // 2
+            else:
+                a = rng.randrange(1, 200) if rng.random() < 0.4 else rand_sig(rng, B, rng.choice([1, 2, 3, p, rng.randrange(1, p + 1)]))
+            qr = _repr_div_qr(B, a, D, p)
+            if qr and qr[1] >= D // 2 and (qr[1] < Wb or D < Wb or t >= 40):
+                break
+        if inv:
+            if ndigits(B, D) > p:
+                continue
+            if rng.random() < 0.5:
+                yield Case("c.inv", [fenc(B, sb * D, eb, 0, m), dec(p)])
+            else:
+                yield Case("f.inv", [fenc(B, sb * D, eb, p, m)])
+        elif rng.random() < 0.4:
+            yield Case("c.div", [fenc(B, sa * a, ea, 0, m), fenc(B, sb * D, eb, 0, m), dec(p)])
+        else:
+            pa = rng.choice([p, p, max(ndigits(B, a), 1)])
+            yield Case("f.div", [fenc(B, sa * a, ea, pa, m), fenc(B, sb * D, eb, p, m)])
+
 IMIN, IMAX = -2 ** 63, 2 ** 63 - 1
 def gen_sqrt_exponents(rng, n):
     """addendum E1 for the `isize` exponent of the operand of sqrt (the result's exponent is about half of it, so it is
@@ -416,8 +506,127 @@ def gen_sqrt_exponents(rng, n):
         else:
             yield Case("c.sqrt", [fenc(B, s, e, 0, m), dec(p)])
 
+def gen_addsub_exponents(rng, n):
+    """round 6, addendum E1 for the `isize` exponents of the operands of add / sub (float/src/add.rs: `lhs.exponent -
+    rhs.exponent`, `ldigits + ediff`, `exponent -= shift`): one or both exponents in {MIN+k, MAX-k, +-2^62 (+-1), +-2^63/2,
+    +-2^40, +-2^32, +-2^31}, gaps on both sides of 2^63 (the isize overflow of the gap), gaps of 0..p+3 digits at huge common
+    exponents (all alignment branches run there too), a zero operand beside an extreme one.  Operands fit p (1 <= p <= 100) and
+    the result's exponent stays inside isize (exponents near MAX keep a margin for carries).  Model side: Driver/Float
+    addSubHuge (offset/gap reduction, checked against the unreduced model run)."""
+    for _ in range(n):
+        B = rng.choice(BASES); m = rng.choice(MODES); p = rng.choice([1, 2, 3, 5, 8, 24, 53, 100, rng.randrange(1, 101)])
+        ld = rng.choice([1, p, max(1, p - 1), rng.randrange(1, p + 1)]); rd = rng.choice([1, p, max(1, p - 1), rng.randrange(1, p + 1)])
+        a = rand_sig(rng, B, ld) * rng.choice([1, -1]); b = rand_sig(rng, B, rd) * rng.choice([1, -1])
+        margin = p + ld + rd + 3
+        k = rng.choice([0, 0, 1, 2, 3, ld, rd, p, p + 1, margin, rng.randrange(0, 2 * margin)])
+        hi_top = IMAX - margin - rng.choice([0, 0, 1, 5, 40])
+        anchors = [IMIN + k, IMIN + k, hi_top, 2 ** 62 - 1, 2 ** 62, 2 ** 62 + 1, -2 ** 62, -2 ** 62 - 1, 2 ** 40, -2 ** 40,
+                   2 ** 32, -2 ** 32, 2 ** 31, -2 ** 31 - 1, -2 ** 61, 2 ** 61, 0]
+        ea = rng.choice(anchors)
+        r = rng.random()
+        if r < 0.35:
+            # small gaps at a huge common exponent: every alignment branch
+            g = rng.choice([0, 1, 2, p - 1, p, p + 1, p + 2, p + 3, rd + 1, rd + 2, abs(p - ld), p - ld + rd + 1, margin])
+            eb = ea - max(0, g)
+            if eb < IMIN:
+                eb = ea + max(0, g)
+        elif r < 0.75:
+            # gaps around 2^63 (isize overflow of `lhs.exponent - rhs.exponent`) and up to 2^64 - 1
+            gap = rng.choice([2 ** 63 - 2, 2 ** 63 - 1, 2 ** 63, 2 ** 63 + 1, 2 ** 63 + rng.randrange(2, 2 ** 20), 2 ** 64 - 1 - margin - rng.randrange(0, 50),
+                              rng.randrange(2 ** 62, 2 ** 64 - margin)])
+            ea = rng.choice([hi_top, 2 ** 62, 2 ** 62 + 1, 2 ** 63 - 2 ** 20, 0, 7, -1, gap + IMIN + k])
+            eb = ea - gap
+            if eb < IMIN:
+                eb = IMIN + k; ea = eb + gap
+            if ea > IMAX - margin:
+                continue
+        else:
+            eb = rng.choice(anchors)
+        if ea > IMAX - margin or eb > IMAX - margin or ea < IMIN or eb < IMIN:
+            continue
+        x, y = (a, ea), (b, eb)
+        z = rng.random()
+        if z < 0.04:
+            x = (0, 0)
+        elif z < 0.08:
+            y = (0, 0)
+        if rng.random() < 0.5:
+            x, y = y, x
+        op = rng.choice(["add", "sub"])
+        if rng.random() < 0.4:
+            yield Case("c." + op, [fenc(B, x[0], x[1], 0, m), fenc(B, y[0], y[1], 0, m), dec(p)])
+        else:
+            pa, pb = rng.choice([(p, p), (p, p), (p, max(ndigits(B, y[0]), 1)), (max(ndigits(B, x[0]), 1), p)])
+            yield Case("f." + op, [fenc(B, x[0], x[1], pa, m), fenc(B, y[0], y[1], pb, m)])
+
+def kf_add_exponent_gap(args):
+    """`(lhs.exponent - rhs.exponent) as usize` of repr_add_large_small / repr_add_small_large (float/src/add.rs:303, 405)
+    overflows isize: both operands non-zero (a zero operand takes the shortcut) and their exponents >= 2^63 apart"""
+    B, s1, e1, _, _ = fdec(args[0]); _, s2, e2, _, _ = fdec(args[1])
+    if s1 == 0 or s2 == 0:
+        return False
+    s1, e1 = normalize(B, s1, e1); s2, e2 = normalize(B, s2, e2)
+    return abs(e1 - e2) >= 2 ** 63
+
+def _div_exp_bounds(B, s1, e1, s2, e2, p):
+    """(e0, lo, hi): e0 = lhs.exponent - rhs.exponent as repr_div forms it first; every result exponent of the division lies in
+    [lo, hi] (the quotient has at most p+1 digits below / dx-dy+1 digits above B^e0, a rounding carry included)"""
+    dx, dy = ndigits(B, s1), ndigits(B, s2)
+    e0 = e1 - e2
+    return e0, e0 + (dx - dy) - p - 1, e0 + (dx - dy) + 1
+
+def gen_div_exponents(rng, n):
+    """round 6, E1 for the `isize` exponents of the operands of div / inv (float/src/div.rs: `lhs.exponent - rhs.exponent`,
+    `e -= shift`): exponents in {MIN+k, MAX-k, +-2^62, +-2^40, +-2^32}, the difference e0 on both sides of isize::MAX - in
+    particular e0 = MAX+j (j <= 5) with a divisor j+1.. digits longer than the dividend, where the RESULT's exponent is back
+    inside isize - operands fit p; only cases whose result exponent is certainly representable (conservative bounds)."""
+    for _ in range(n):
+        B = rng.choice(BASES); m = rng.choice(MODES); p = rng.choice([3, 5, 8, 24, 53, 100, rng.randrange(3, 101)])
+        r = rng.random()
+        if r < 0.45:
+            j = rng.randrange(1, max(2, min(6, p - 1)))
+            dx = rng.randrange(1, max(2, p - j)); dy = min(p, dx + 1 + j + rng.choice([0, 0, 1, 3]))
+            if dy < dx + 1 + j:
+                continue
+            e2 = -rng.choice([1, 2, 5, 17, 2 ** 20, 2 ** 62, IMAX - 40]) ; e1 = IMAX + j + e2
+            if e1 > IMAX:
+                continue
+        else:
+            dx = rng.choice([1, p, rng.randrange(1, p + 1)]); dy = rng.choice([1, p, rng.randrange(1, p + 1)])
+            anchors = [IMIN + rng.randrange(0, 50), IMAX - rng.randrange(0, 50), 2 ** 62, -2 ** 62, 2 ** 40, -2 ** 40, 2 ** 32, -2 ** 32, 0, 3, -7]
+            e1 = rng.choice(anchors); e2 = rng.choice(anchors)
+        a = rand_sig(rng, B, dx) * rng.choice([1, -1]); b = rand_sig(rng, B, dy) * rng.choice([1, -1])
+        if rng.random() < 0.15:
+            q = rand_sig(rng, B, rng.randrange(1, 4)); a = b * q
+            if a % B == 0 or ndigits(B, a) > p:
+                continue
+        e0, lo, hi = _div_exp_bounds(B, a, e1, b, e2, p)
+        if lo < IMIN or hi > IMAX or (e0 < IMIN):
+            continue
+        if rng.random() < 0.4:
+            yield Case("c.div", [fenc(B, a, e1, 0, m), fenc(B, b, e2, 0, m), dec(p)])
+        else:
+            yield Case("f.div", [fenc(B, a, e1, p, m), fenc(B, b, e2, p, m)])
+
+def kf_div_exponent_overflow(args, model):
+    """`lhs.exponent - rhs.exponent` of Context::repr_div (float/src/div.rs:227) exceeds isize::MAX although the exponent of the
+    required result (the model's, computed with unbounded exponents) is representable"""
+    B, s1, e1, p1, _ = fdec(args[0]); _, s2, e2, p2, _ = fdec(args[1])
+    if s1 == 0 or s2 == 0:
+        return False
+    s1, e1 = normalize(B, s1, e1); s2, e2 = normalize(B, s2, e2)
+    t = model.split()
+    if e1 - e2 <= IMAX or len(t) < 3 or t[0] != "ok":
+        return False
+    try:
+        return IMIN <= int(t[2]) <= IMAX
+    except ValueError:
+        return False
+
 def kf_sqrt_exponent_overflow(args):
-    """`x.exponent - digits` (parity test) or `x.exponent - shift` (result exponent) of Context::sqrt leaves the isize range,
+    """(repaired by /repo 8f4bf4b: `fixed:` line, no entry calls this any more; kept as the description of the input class that
+    gen_sqrt_exponents drives.)
+    `x.exponent - digits` (parity test) or `x.exponent - shift` (result exponent) of Context::sqrt leaves the isize range,
     shift = 2p - digits - ((exponent - digits) & 1): exponents within ~2p of isize::MIN (and within digits - 2p of
     isize::MAX for over-long operands); the true result exponent (about half) is representable"""
     B, sg, e, pf, m = fdec(args[0])
@@ -431,7 +640,9 @@ def kf_sqrt_exponent_overflow(args):
     return not (IMIN <= e - shift <= IMAX)
 
 def kf_precision_overflow(kind, args, impl):
-    """`usize` arithmetic on the precision overflows (debug build: `attempt to add/multiply with overflow`; release build:
+    """(kinds "mul", "cubic", "add", "div": repaired by /repo 5768014 - their entries are `fixed:` lines now and nothing calls
+    these kinds any more; kind "sqrt" is still a finding.)
+    `usize` arithmetic on the precision overflows (debug build: `attempt to add/multiply with overflow`; release build:
     wraps - operands pre-shrunk to the wrapped length / the far-apart branch taken wrongly):
     kind "mul" (mul, sqr): `2 * precision` (p > usize::MAX/2); "cubic": `3 * precision` (p > usize::MAX/3);
     "add" (add, sub): `precision + is_sub` and `digits_ub(small) + 1 + rnd_precision` (add.rs); "div" (div, inv):
@@ -467,6 +678,9 @@ def generate(rng, tier):
     yield from gen_extreme(rng, 700 * k)
     yield from gen_sqrt_allbits(rng, 500 * k)
     yield from gen_sqrt_exponents(rng, 300 * k)
+    yield from gen_div_halftest(rng, 600 * k)
+    yield from gen_addsub_exponents(rng, 500 * k)
+    yield from gen_div_exponents(rng, 400 * k)
 
 def nontrivial(c):
     return True
@@ -489,7 +703,18 @@ RULE = ("modes x bases {2,3,10,16,36} x p in {1,2,3,5,8,24,53,100}; add/sub oper
         "non-squares, zero, negative) - every call that does not need memory proportional to p. Addendum E2: 15 % of all cases at a "
         "precision drawn from 1..130; sqrt of k^2-1, k^2, k^2+1 for k of every bit length 1..140 and of B^j-1, B^j, B^j+1 (j < 80) at "
         "the precision of the operand, of the root, and one beside it; sqrt with the operand's isize exponent in {MIN+k (k <= 2p+6), "
-        "MAX-k, +-2^62, +-2^32, +-2^31, +-2^20} (model side through the scale invariance of sqrt). distinct := distinct (op,args).")
+        "MAX-k, +-2^62, +-2^32, +-2^31, +-2^20} (model side through the scale invariance of sqrt). Round 6: division half-test class "
+        "(round_ratio compares 2*|rem| with |den|): divisor significand of bit length w*k+{1,2,3}, w*k, w*k-1 (w in {64,32}, k<=3), the "
+        "remainder handed to round_ratio at den/2 (+-1), at the largest / half of the largest value with one word fewer than the "
+        "divisor, den-1, random in [den/2, den); constructed dividends q*den+rem (Context::div, any p) and sampled operands that fit "
+        "p >= digits(den) (operators, Context::div, inv). add/sub with isize-extreme exponents: one or both exponents in {MIN+k, MAX-"
+        "margin-k, +-2^62(+-1), +-2^61, +-2^40, +-2^32, +-2^31}, gaps 0..p+3 at a huge common exponent (all alignment branches), gaps "
+        "2^63-2 .. 2^63+2^20 and up to 2^64-1 (isize overflow of the gap), a zero operand beside an extreme one (model side: "
+        "Driver/Float addSubHuge - common offset removed, far-apart gap reduced, checked against the unreduced model run). div with "
+        "isize-extreme exponents: exponents {MIN+k, MAX-k, +-2^62, +-2^40, +-2^32}, the difference lhs.exponent - rhs.exponent on "
+        "both sides of isize::MAX (MAX+j, j <= 5, with a divisor at least j+1 digits longer, so that the result's exponent is "
+        "representable again); only cases whose result exponent is certainly inside isize (model side: Driver/Float divHugeStr). "
+        "distinct := distinct (op,args).")
 REFINED = ["Context::repr_round", "Context::mul/sqr/cubic (operands <= 2p/3p digits; all operands without the pre-shrink)", "FBig * FBig",
            "Context::repr_div / div (dividend <= rhs.digits+p) / inv, div_align", "Round::round_ratio",
            "Context::sqrt (scaling + sqrt_rem rounding + half test); its Exact flag = (rem = 0 and discarded low digits = 0) "
@@ -509,11 +734,18 @@ FRONTIER = ["UBig::sqrt_rem: a parameter with its C12 contract (SqrtRemOk); Prop
             "Context::sqrt body (float/src/root.rs): hand-mirrored (ctxSqrt/sqrtScale/sqrtRound), tied by correspondence and the "
             "regenerated prologue (Gen/FloatGuards guard_Context_sqrt) only - the typed translator has no reading of the "
             "`as isize` casts, `& 1` and the `round_low_part` closure yet, so no Tie A text for it",
-            "machine-integer width of the precision: the model's precision is a Nat; the usize/isize overflows of the code for "
-            "precisions near usize::MAX (2*p, 3*p, p+1, digits+p, `p as isize * 2`) are NOT mirrored - they are recorded findings "
-            "(known_findings.jsonl, proposed_fixes/float-precision-usize-overflow.diff); theorems quantify over all p >= 1 for the "
-            "model, i.e. they describe the code only below those overflow thresholds (hypothesis `2p <= usize::MAX` of "
-            "regenerated_mul_contract, `digits <= usize::MAX` of context_mul_is_model)",
+            "machine-integer width of the precision: the model's precision is a Nat. Since fixes 5768014 / 8f4bf4b the code "
+            "saturates 2*p, 3*p, p+1, digits+p and computes sqrt's exponent arithmetic in i128, so model and code agree for "
+            "every precision up to usize::MAX on add/sub/mul/sqr/cubic/div/inv (driven: gen_extreme; theorems hold for all "
+            "p >= 1 with only the operand-LENGTH hypothesis `digits <= usize::MAX` of context_mul_is_model / "
+            "regenerated_mul_contract, true of every value in memory). Still NOT mirrored and still a finding: "
+            "`self.precision as isize * 2` in Context::sqrt (root.rs:52) for p >= 2^62",
+            "machine-integer width of the exponents: the model's exponents are Ints. add/sub: driven at the isize limits (round 6); the "
+            "one divergence is a finding (exponent gap >= 2^63 subtracted in isize, add.rs:303/405, proposed_fixes/"
+            "c03-float-add-exponent-gap-overflow.diff). div: driven likewise; divergence = finding (`lhs.exponent - rhs.exponent` > "
+            "isize::MAX with a representable result exponent, div.rs:227, proposed_fixes/c03-float-div-exponent-difference-overflow"
+            ".diff). NOT driven: mul/sqr/cubic/inv at extreme exponents, and every result whose exponent leaves isize (exponent sums, "
+            "`e -= shift` of repr_div at isize::MIN, carries at isize::MAX) - no documented behaviour to compare with",
             "clause `|r - x| < 1 ulp` for Context methods on Reprs longer than the working length: only `_partial` / "
             "`*_contract_outside_region` theorems (the code violates the clause inside the regions: counterexample theorems)"]
 THEOREMS = ["Dashu.Props.C03." + t for t in (
